@@ -686,11 +686,6 @@ func (vm *VolumeManager) ResizeVolume(ctx context.Context, id int64, maxSectors 
 	}
 	defer done()
 
-	stat, err := vm.vs.Volume(id)
-	if err != nil {
-		return fmt.Errorf("failed to get volume: %w", err)
-	}
-
 	vm.mu.Lock()
 	defer vm.mu.Unlock()
 
@@ -702,6 +697,14 @@ func (vm *VolumeManager) ResizeVolume(ctx context.Context, id int64, maxSectors 
 	// check that the volume is not already being resized
 	if err := vol.SetStatus(VolumeStatusResizing); err != nil {
 		return fmt.Errorf("failed to set volume status: %w", err)
+	}
+
+	// read the current size only now: the resizing status keeps other
+	// resizes out, so it cannot be stale when the goroutine uses it
+	stat, err := vm.vs.Volume(id)
+	if err != nil {
+		vol.SetStatus(VolumeStatusReady)
+		return fmt.Errorf("failed to get volume: %w", err)
 	}
 
 	var resetReadOnly bool
